@@ -74,6 +74,13 @@ func c05Run(c *core.Ctx) {
 			}
 		})
 	}
+	for _, src := range chainPrograms(c) {
+		for _, v := range []*version.Version{drive.V74, drive.V56} {
+			if c.Next() {
+				c05One(c, mkCase(src, v, "postfix chain"))
+			}
+		}
+	}
 	for _, src := range corpus.Specials() {
 		for _, v := range []*version.Version{drive.V74, drive.V56} {
 			if !c.Next() {
